@@ -277,9 +277,14 @@ def _turn_chunk(rows):
 
 
 def boundary_rows(ctx):
-    rates = sorted(_pm([P31 - 1, P31 - 2, P30, P30 + 1, 123456789, 1800095000, 80000000]))
+    rates = sorted(_pm([P31 - 1, P31 - 2, P30, P30 + 1, 123456789, 1800095000, 80000000,
+                        536796752, 449800]))
     accels = [0, 1, -1, 2, 5, -3, 26012345, -26012345]
-    budgets = [1, 2, 1000, (1 << 22) + 1, 9000000, (1 << 26) + 3]
+    # accelerations whose reciprocal is not short in binary (dividing by them and multiplying by
+    # their rounded reciprocal differ in the last place - which decides a ceil() on an exact
+    # landing): none of them a small integer, a power of two or next to one
+    accels += [19, -19, 21, -21, 27, -27, 38, 42, -54, 55, 61, -69, 12360, -110]
+    budgets = [1, 2, 3, 1000, (1 << 22) + 1, 9000000, (1 << 26) + 3]
     if ctx.thorough:
         rates += [500000, -500000, 1000000007, -1000000007]
         accels += [3, -7, 1 << 8, -(1 << 8)]
